@@ -106,6 +106,10 @@ pub fn whole_connections(rep: &Report) -> u64 {
             c("login to the public host, session cookie of the staff host", 2, "play.example.net", Some("staff.example.net"), false, "NetPlayer", public),
             c("transfer to the public host, valid authentication cookie, session cookie of the staff host", 3, "play.example.net", Some("staff.example.net"), true, "NetPlayer", public),
             c("transfer to the staff host, valid authentication cookie, session cookie of the public host", 3, "staff.example.net", Some("play.example.net"), true, "NetPlayer", staff),
+            // the authentication cookie names the target of the last visit (public-1): where the player goes now is
+            // still the strategy's decision among the targets that qualify now (default strategy: the first)
+            c("transfer to a host no filter names, valid authentication cookie naming the second target", 3, "other.example.net", None, true, "NetPlayer", staff),
+            c("transfer to a host no filter names, valid authentication cookie, session cookie of the public host", 3, "other.example.net", Some("play.example.net"), true, "NetPlayer", staff),
             c("blocked player on the public host", 2, "play.example.net", None, false, "Blocked_One", None),
             c("blocked player on the public host, session cookie of the staff host", 3, "play.example.net", Some("staff.example.net"), false, "Blocked_One", None),
             c("blocked player on the public host, valid authentication cookie, session cookie of the staff host", 3, "play.example.net", Some("staff.example.net"), true, "Blocked_One", None),
